@@ -2071,7 +2071,7 @@ fn find_required_sections<'data, A: Arch>(
     rayon::in_place_scope(|scope| {
         queue_initial_group_processing::<A>(groups_in, symbol_db, resources_ref, scope);
         #[cfg(feature = "verif")]
-        crate::verif::sched::scope_wait();
+        crate::verif::sched::scope_wait("gc");
     });
     #[cfg(feature = "verif")]
     drop(verif_region);
@@ -2126,7 +2126,7 @@ fn queue_initial_group_processing<'data, 'scope, A: Arch>(
         .zip(&symbol_db.groups)
         .for_each(|((group_index, resolved), group)| {
             #[cfg(feature = "verif")]
-            let verif_ticket = crate::verif::sched::ticket("activate");
+            let verif_ticket = crate::verif::sched::ticket("gc", "activate");
             scope.spawn(move |scope| {
                 #[cfg(feature = "verif")]
                 let _verif_task = crate::verif::sched::task_begin(verif_ticket);
@@ -2386,7 +2386,7 @@ impl<'data, P: Platform> GraphResources<'data, '_, P> {
         );
         if let Some(worker) = worker {
             #[cfg(feature = "verif")]
-            let verif_ticket = crate::verif::sched::ticket("wake");
+            let verif_ticket = crate::verif::sched::ticket("gc", "wake");
             scope.spawn(|scope| {
                 #[cfg(feature = "verif")]
                 let _verif_task = crate::verif::sched::task_begin(verif_ticket);
